@@ -1359,7 +1359,7 @@ def all_templates(tier, seed, with_where=True):
       if not with_where or has_ref(root):
         continue
       if quick:
-        if (pi + seed) % 4 == 0 and (cname != 'root' or len(hyper_names(root)) > 1):
+        if (pi + seed) % 5 == 0 and (cname != 'root' or len(hyper_names(root)) > 1):
           for sel in where_variants(root, rnd, 2):
             yield root, sel
       elif cname in ('root', 'two', 'deep', 'three') and (pi + ci) % 2 == 0:
@@ -1371,7 +1371,7 @@ def all_templates(tier, seed, with_where=True):
     if with_where:
       for sel in where_variants(root, rnd, 2 if quick else 4):
         yield root, sel
-  n_rand = 8 if quick else 110
+  n_rand = 6 if quick else 110
   for i in range(n_rand):
     root = assign_names(random_root(rnd, rnd.choice([1, 2, 2, 3])))
     yield root, None
